@@ -566,7 +566,10 @@ def diff(self, axis=-1, scheme="backward", keepaxis=False, n=1):
             #newaxis = oldaxis.copy()
 
         else:
-            axisvalues = 0.5*(oldaxis.values[:-1]+oldaxis.values[1:])
+            axisvalues = oldaxis.values
+            if axisvalues.dtype.kind in 'iu':
+                axisvalues = axisvalues.astype(float) # the sum of two integer labels may not fit their type
+            axisvalues = 0.5*(axisvalues[:-1]+axisvalues[1:])
             newaxis = Axis(axisvalues, name)
 
     else:
